@@ -5,6 +5,7 @@ import (
 	"fmt"
 	"math"
 	"sync/atomic"
+	"time"
 
 	z80 "github.com/koron-go/z80"
 	"github.com/koron-go/z80/internal/verif/refz80"
@@ -423,7 +424,7 @@ func checkC12(c *Ctx) {
 			}
 		}
 	}
-	c.Rule = fmt.Sprintf("every decode path (%d byte prefixes incl. all 65536 (d,op) pairs after DDCB/FDCB) x %d operand byte patterns x %d configurations (memory kind {64K array, DumbMemory len 0/1/256/32768, MapMemory} / IO kind {nil, DumbIO len 0/1/128/256} / IM {0,1,2,-1,3,MaxInt} / PC {0000,0100,FFFC..FFFF} / SP / pending request {none, NMI, unknown types, IM1, IM2, mode-0 data of 1..4 bytes and 70000 bytes} one at a time around a default, thorough: pairs); all 256 single-byte opcodes and multi-byte forms as mode-0 data x IM x IFF1 x PC x memory kind; mode-0 data of 5/8/300 bytes starting with each of the 256 opcodes with every pointer register aimed into and around [PC, PC+len); Run on a halting program with every request kind pending x IM x IFF1; Run vs Step-driven twin on every decode path as a one-instruction program in HALT-filled memory (at 0100, FFC0 and FFFA, with and without a non-empty BreakPoints map). the real DumbMemory (6 lengths) and MapMemory passed to the CPU unwrapped x every decode path x operand patterns x 4 PCs x 7 SPs; memories filled with a single prefix/opcode byte; one CPU value stepped through the whole decode tree twice (every supported and unsupported encoding on the same object); an embedder re-pointing CPU.Memory/CPU.IO from inside the callback at access 0..4 of the Step x all 256 first bytes x 4 tails, from memory and as mode-0 data; Oracle: no panic, deterministic watchdog (4096 accesses per Step), unsupported opcodes only consumed. Non-trivial = the configuration deviates from the default in memory/IO/IM/request or the path is an unsupported or prefix-only encoding (counted).", len(paths), len(operandPats), len(cfgs))
+	c.Rule = fmt.Sprintf("every decode path (%d byte prefixes incl. all 65536 (d,op) pairs after DDCB/FDCB) x %d operand byte patterns x %d configurations (memory kind {64K array, DumbMemory len 0/1/256/32768, MapMemory} / IO kind {nil, DumbIO len 0/1/128/256} / IM {0,1,2,-1,3,MaxInt} / PC {0000,0100,FFFC..FFFF} / SP / pending request {none, NMI, unknown types, IM1, IM2, mode-0 data of 1..4 bytes and 70000 bytes} one at a time around a default, thorough: pairs); all 256 single-byte opcodes and multi-byte forms as mode-0 data x IM x IFF1 x PC x memory kind; mode-0 data of 5/8/300 bytes starting with each of the 256 opcodes with every pointer register aimed into and around [PC, PC+len); Run on a halting program with every request kind pending x IM x IFF1; Run vs Step-driven twin on every decode path as a one-instruction program in HALT-filled memory (at 0100, FFC0 and FFFA, with and without a non-empty BreakPoints map). the real DumbMemory (6 lengths) and MapMemory passed to the CPU unwrapped x every decode path x operand patterns x 4 PCs x 7 SPs; memories filled with a single prefix/opcode byte; Run called from inside a device callback of a running Run on the same CPU (BIOS-trap style, both programs halt); one CPU value stepped through the whole decode tree twice (every supported and unsupported encoding on the same object); an embedder re-pointing CPU.Memory/CPU.IO from inside the callback at access 0..4 of the Step x all 256 first bytes x 4 tails, from memory and as mode-0 data; Oracle: no panic, deterministic watchdog (4096 accesses per Step), unsupported opcodes only consumed. Non-trivial = the configuration deviates from the default in memory/IO/IM/request or the path is an unsupported or prefix-only encoding (counted).", len(paths), len(operandPats), len(cfgs))
 	c.Bound = "decode tree x configuration lattice " + c.Tier
 	var evals, nontriv [16 * 8]int64
 	var capped int32
@@ -542,7 +543,7 @@ func checkC12(c *Ctx) {
 	// set, a decode cache, counters) must not make a later Step panic. Twice over, the second time by Run.
 	{
 		flat := &fastMem{}
-		cm := &countMem{m: flat, limit: 1 << 62}
+		cm := &countMem{m: flat, limit: 1 << 30}
 		cpu := z80.CPU{Memory: cm, IO: make(z80.DumbIO, 256)}
 		var nl int64
 		for pass := 0; pass < 2; pass++ {
@@ -578,6 +579,45 @@ func checkC12(c *Ctx) {
 		}
 		n += nl
 		c.Set("long_lived_cpu_steps", nl)
+	}
+	// Run called from inside a device callback of a running Run on the SAME CPU (a BIOS-trap style device: an OUT
+	// or a store to a trap address makes the host run a service routine on the CPU and then resume). Both
+	// programs halt, so both Runs return. A lock or a flag that makes Run non-reentrant hangs here without a
+	// single memory access, so this is the one place with a wall-clock backstop (60 s for microseconds of work).
+	for variant := 0; variant < 2; variant++ {
+		mem := make(z80.DumbMemory, 0x10000)
+		// main: LD A,1 ; OUT (10h),A ; LD (5000h),A ; LD B,A ; HALT      service: INC A ; INC A ; HALT
+		mem.Put(0x0000, 0x3E, 0x01, 0xD3, 0x10, 0x32, 0x00, 0x50, 0x47, 0x76)
+		mem.Put(0x4000, 0x3C, 0x3C, 0x76)
+		cpu := &z80.CPU{}
+		trap := &trapDev{cpu: cpu, mem: mem, service: 0x4000, onOut: variant == 0}
+		cpu.Memory, cpu.IO = trap, trap
+		done := make(chan interface{}, 1)
+		go func() {
+			defer func() {
+				if r := recover(); r != nil {
+					done <- r
+				}
+			}()
+			done <- cpu.Run(bgCtx)
+		}()
+		var res interface{}
+		timedOut := false
+		select {
+		case res = <-done:
+		case <-time.After(60 * time.Second):
+			timedOut = true
+		}
+		n++
+		what := map[bool]string{true: "an OUT (10h),A", false: "a store to 5000h"}[variant == 0]
+		switch {
+		case timedOut:
+			c.Report("c12/nested-run", int64(variant), "", map[string]interface{}{"trap_on_out": variant == 0}, []string{fmt.Sprintf("Run did not return within 60 s: the device callback of %s calls Run on the same CPU for a halting service routine and resumes; both programs halt (trap calls so far: %d, PC=%04X)", what, trap.calls, cpu.PC)})
+		case res != nil:
+			c.Report("c12/nested-run", int64(variant), "", map[string]interface{}{"trap_on_out": variant == 0}, []string{fmt.Sprintf("Run with a nested Run from the callback of %s: %v", what, res)})
+		case trap.calls != 1 || cpu.BC.Hi != 3 || cpu.PC != 0x0008 || !cpu.HALT || mem[0x5000] != 3 && variant == 0:
+			c.Report("c12/nested-run", int64(variant), "", map[string]interface{}{"trap_on_out": variant == 0}, []string{fmt.Sprintf("Run with a nested Run from the callback of %s ended wrongly: trap calls %d (want 1), B=%02X (want 03), PC=%04X (want 0008), HALT=%v, (5000h)=%02X", what, trap.calls, cpu.BC.Hi, cpu.PC, cpu.HALT, mem[0x5000])})
+		}
 	}
 	// an embedder that switches banks by re-pointing CPU.Memory (and CPU.IO) from inside a device callback, at
 	// the k-th access of the Step: which object serves the remaining accesses is nobody's promise, but the
@@ -840,3 +880,43 @@ type swapIO struct{ d *swapDev }
 
 func (o *swapIO) In(p uint8) uint8     { o.d.tick(); return p ^ 0x5A }
 func (o *swapIO) Out(p uint8, v uint8) { o.d.tick() }
+
+// trapDev is memory and port device of a machine whose host services a trap by running a routine on the CPU
+// itself: Run called from inside the callback, on the same CPU, then the interrupted program resumes.
+type trapDev struct {
+	cpu     *z80.CPU
+	mem     z80.DumbMemory
+	service uint16
+	onOut   bool
+	calls   int
+	busy    bool
+}
+
+func (d *trapDev) trap() {
+	if d.busy {
+		return
+	}
+	d.busy = true
+	d.calls++
+	saved := d.cpu.PC
+	d.cpu.PC = d.service
+	d.cpu.Run(bgCtx)
+	d.cpu.PC = saved
+	d.cpu.HALT = false
+	d.busy = false
+}
+
+func (d *trapDev) Get(a uint16) uint8 { return d.mem[a] }
+func (d *trapDev) Set(a uint16, v uint8) {
+	if !d.onOut && a == 0x5000 {
+		d.trap()
+		v = d.cpu.AF.Hi
+	}
+	d.mem[a] = v
+}
+func (d *trapDev) In(p uint8) uint8 { return 0 }
+func (d *trapDev) Out(p uint8, v uint8) {
+	if d.onOut && p == 0x10 {
+		d.trap()
+	}
+}
